@@ -20,7 +20,7 @@ LEVEL_NOTE = ("Trusted: Lean kernel (+ standard axioms); little-endian layout of
               "F19a makes the gathered words contiguous) -- that facet is carried by the correspondence; index dtypes of returned "
               "index arrays (int32 vs int64) are not compared, only their values.")
 TECHNIQUE = "Lean 4 proof of path agreement and absence of 32-bit overflow; two-configuration differential run of the C01-C09 cases"
-DESIGN_REF = "6.19"
+DESIGN_REF = "7"
 LEAN_MODULES = ["NpsVerif.Props.C19"]
 KERNELS = ()
 RULE = ("cases = a seeded sample of the quick-tier cases of C01..C09 (all index kinds, assignments, ufuncs, reductions, scans, "
